@@ -141,15 +141,29 @@ def fillYlyYcw (cand : List Nat) (y : Nat) (dow : List Int) : List Nat :=
     let md := ydToMd y (toS32 yd)
     if md.m = 0 then cand else assC cand (packCand md.m md.d)) cand
 
-/-- `fill_yly_yd(cand, y, doy, wd_mask)`: BYYEARDAY, limited by plain weekdays -/
-def fillYlyYd (cand : List Nat) (y : Nat) (doy : List Int) (wdMask : Nat) : List Nat :=
+/-- `dow_limit_p(dow, wd_mask, y, m, d, w, mp)`: does `m`/`d` of `y`, a `w`, pass BYDAY as a limit: a plain weekday
+admits every such day, a numbered one the n-th such day of the month (`mp`) or of the year -/
+def dowLimitP (dow : List Int) (wdMask : Nat) (y m d w : Nat) (mp : Bool) : Bool :=
+  if bit wdMask w then true
+  else if wdMask % 2 = 0 then false
+  else dow.any (fun tmp =>
+    let (cnt, wd) := unpackCd tmp
+    if cnt = 0 ∨ wd ≠ w then false
+    else if mp then ymcwGetDom y m cnt wd == d
+    else
+      let md := ydToMd y (toS32 (ycwGetYday y cnt wd))
+      md.m == m && md.d == d)
+
+/-- `fill_yly_yd(cand, y, doy, dow, wd_mask, mp)`: BYYEARDAY, limited by BYDAY -/
+def fillYlyYd (cand : List Nat) (y : Nat) (doy : List Int) (dow : List Int) (wdMask : Nat) (mp : Bool) : List Nat :=
   doy.foldl (fun cand yd0 =>
     let yd : Int := if yd0 < 0 then yd0 + 366 + (leapN y : Int) else yd0
-    if wdMask >>> 1 ≠ 0 ∧ !bit wdMask (ydGetWday y (toU32 yd)) then cand
-    else if yd > 365 + (leapN y : Int) then cand
+    if yd > 365 + (leapN y : Int) then cand
     else
       let md := ydToMd y yd
-      if md.m = 0 then cand else assC cand (packCand md.m md.d)) cand
+      if md.m = 0 then cand
+      else if wdMask ≠ 0 ∧ !dowLimitP dow wdMask y md.m md.d (ydGetWday y (toU32 yd)) mp then cand
+      else assC cand (packCand md.m md.d)) cand
 
 /-- `fill_yly_yd_all(c, y, wd_mask)`: every day of the year on one of the plain weekdays -/
 def fillYlyYdAll (c : List Nat) (y : Nat) (wdMask : Nat) : List Nat :=
@@ -178,23 +192,23 @@ def pickDom (dd : Int) (ndim : Nat) : Option Nat :=
   else if dd < 0 ∧ toU32 (-dd) ≤ ndim then some (toS32 (toU32 dd + ndim + 1)).toNat   -- `dd += ndim + 1U`
   else none
 
-/-- `fill_mly_ymd(cand, s, y, mo, d, nd, wd_mask)`: BYMONTHDAY in month `mo`, limited by plain weekdays
-(`wd_mask >> 1U`) -/
-def fillMlyYmd (cand : List Nat) (y mo : Nat) (ds : List Int) (wdMask : Nat) : List Nat :=
+/-- `fill_mly_ymd(cand, s, y, mo, d, nd, dow, wd_mask)`, Gregorian: BYMONTHDAY in month `mo`, limited by BYDAY (numbered
+entries count within the month) -/
+def fillMlyYmd (cand : List Nat) (y mo : Nat) (ds : List Int) (dow : List Int) (wdMask : Nat) : List Nat :=
   ds.foldl (fun cand dd0 =>
     match pickDom dd0 (getNdom y mo) with
     | none => cand
     | some dd =>
-      if wdMask >>> 1 ≠ 0 ∧ !bit wdMask (ymdGetWday y mo dd) then cand
+      if wdMask ≠ 0 ∧ !dowLimitP dow wdMask y mo dd (ymdGetWday y mo dd) true then cand
       else assC cand (packCand mo dd)) cand
 
-/-- `fill_yly_ymd(cand, s, y, m, nm, d, nd, wd_mask)` -/
-def fillYlyYmd (cand : List Nat) (y : Nat) (ms : List Nat) (ds : List Int) (wdMask : Nat) : List Nat :=
-  ms.foldl (fun cand m => fillMlyYmd cand y m ds wdMask) cand
+/-- `fill_yly_ymd(cand, s, y, m, nm, d, nd, dow, wd_mask)` -/
+def fillYlyYmd (cand : List Nat) (y : Nat) (ms : List Nat) (ds : List Int) (dow : List Int) (wdMask : Nat) : List Nat :=
+  ms.foldl (fun cand m => fillMlyYmd cand y m ds dow wdMask) cand
 
-/-- `fill_yly_ymd_all_m(cand, s, y, d, nd, wd_mask)`: BYMONTHDAY in all twelve months; here the weekday test is
-switched on by `wd_mask` itself, not by `wd_mask >> 1U` -/
-def fillYlyYmdAllM (cand : List Nat) (y : Nat) (ds : List Int) (wdMask : Nat) : List Nat :=
+/-- `fill_yly_ymd_all_m(cand, s, y, d, nd, dow, wd_mask)`, Gregorian: BYMONTHDAY in all twelve months, limited by BYDAY
+(numbered entries count within the year) -/
+def fillYlyYmdAllM (cand : List Nat) (y : Nat) (ds : List Int) (dow : List Int) (wdMask : Nat) : List Nat :=
   (List.range 12).foldl (fun cand i =>
     let m := i + 1
     ds.foldl (fun cand dd0 =>
@@ -202,7 +216,7 @@ def fillYlyYmdAllM (cand : List Nat) (y : Nat) (ds : List Int) (wdMask : Nat) : 
       | none => cand
       | some dd =>
         let wd := ymdGetWday y m dd
-        if wdMask ≠ 0 ∧ !bit wdMask wd then cand
+        if wdMask ≠ 0 ∧ !dowLimitP dow wdMask y m dd wd false then cand
         else assC cand (packCand m dd)) cand) cand
 
 /-- `fill_mly_ymd_all_d(cand, s, y, mo, wd_mask)`: all days of month `mo`, limited by `wd_mask` (if non-zero) -/
@@ -216,6 +230,24 @@ def fillMlyYmdAllD (cand : List Nat) (y mo : Nat) (wdMask : Nat) : List Nat :=
 /-- `fill_yly_ymd_all_d(cand, s, y, m, nm, wd_mask)` -/
 def fillYlyYmdAllD (cand : List Nat) (y : Nat) (ms : List Nat) (wdMask : Nat) : List Nat :=
   ms.foldl (fun cand m => fillMlyYmdAllD cand y m wdMask) cand
+
+/-- `lim_cand(cand, y, mon, dom, wk, doy, pdow)`: keep the candidates that pass every one of BYMONTH, BYMONTHDAY,
+BYWEEKNO (with DTSTART's weekday `pdow` if that is what picks the day) and BYYEARDAY -/
+def limCand (cand : List Nat) (y : Nat) (mon : List Nat) (dom wk doy pdow : List Int) : List Nat :=
+  cand.filter (fun c =>
+    let md := unpackCand c
+    let ndim : Int := getNdom y md.m
+    let nyd : Int := 365 + (leapN y : Int)
+    let yd : Int := ymdGetYd y md.m md.d
+    let w := ymdGetWday y md.m md.d
+    (mon.isEmpty || mon.contains md.m) &&
+    (dom.isEmpty || dom.contains (md.d : Int) || dom.contains ((md.d : Int) - ndim - 1)) &&
+    (doy.isEmpty || doy.any (fun k => k == yd || k == yd - nyd - 1)) &&
+    (wk.isEmpty ||
+      ((match pdow with
+        | [] => true
+        | k :: _ => k == (w : Int)) &&
+       wk.any (fun k => let x := ywdToMd y k w; x.m == md.m && x.d == md.d))))
 
 /-! ### BYSETPOS on instances, the emission loop -/
 
